@@ -10,9 +10,8 @@ SPEC = dict(
               [['-n', '100', '-seed', '{seed}', '-profile', 'all', '-shrinkms', '20'] for _ in range(4)],
               [['-n', '500', '-seed', '{seed}', '-profile', 'all', '-shrinkms', '200'] for _ in range(16)])],
     oracle_props=['C02'],
-    partial=['panic(v) and runtime errors: the theorem covers Error/Errorf/Fail/Fatal/Fatalf/FailNow; that a panic value propagates to checkOnce is decided by the event-trace correspondence and the complete kind x context x position matrix (a panic raised in one cleanup and followed by a Skip in another cleanup is reported as invalid by the code: the last panic wins)',
-             'non-fatal signals from other goroutines: C14 (lost-update theorems and the -race workload)',
-             'a panic followed by a Skip in a cleanup function that runs afterwards is counted as skipped by the code (open finding, known_findings.json); the empty-message variants t.Error() / t.Errorf("") are part of the matrix since the fix 9895181'],
+    partial=['non-fatal signals from other goroutines: C14 (lost-update theorems and the -race workload)',
+             'the theorem covers every kind of signal incl. panics (C02_signal_fails_case) in the model; runtime errors (nil dereference ...) are panics raised by the Go runtime rather than by a call the model sees: they are covered by the matrix (nilderef variant) and the event-trace correspondence'],
     assumptions=['the harness logs every failure call it makes before making it; the TB is a recording rapid.TB'],
 )
 
